@@ -1,6 +1,7 @@
 package props
 
 import (
+	"encoding/base64"
 	"encoding/json"
 	"fmt"
 	"strings"
@@ -237,6 +238,63 @@ func insertedOutsiders(rng *gen.RNG, keyLens []int, emit func(text, class string
 	}
 }
 
+// otherEncodings: a valid text carried in the encoding of some other layer (percent-encoded padding or letters,
+// quoted-printable / HTML-entity padding, quotes and brackets around it, a scheme-like prefix, the key in hex or
+// base64 instead of base32). Each contains characters outside the alphabet and must be rejected; texts that happen to
+// be valid base32 again (per the reference decoder) are not emitted.
+func otherEncodings(rng *gen.RNG, keyLens []int, emit func(text, class string)) {
+	out := func(t string) {
+		if _, err := ref.Base32Decode(t); err != nil {
+			emit(t, "other-encoding-of-a-valid-text")
+		}
+	}
+	pct := func(s string, all bool, lower bool) string {
+		var sb strings.Builder
+		for i := 0; i < len(s); i++ {
+			if all || s[i] == '=' {
+				f := "%%%02X"
+				if lower {
+					f = "%%%02x"
+				}
+				fmt.Fprintf(&sb, f, s[i])
+			} else {
+				sb.WriteByte(s[i])
+			}
+		}
+		return sb.String()
+	}
+	for _, n := range keyLens {
+		key := rng.Bytes(n)
+		padded, bare := ref.Base32Encode(key), ref.Base32EncodeNoPad(key)
+		for _, v := range []string{padded, strings.ToLower(padded)} {
+			out(pct(v, false, false))
+			out(pct(v, false, true))
+			out(pct(v, true, false))
+			out(strings.ReplaceAll(v, "=", "=3D"))
+			out(strings.ReplaceAll(v, "=", "&#61;"))
+			out(strings.ReplaceAll(v, "=", "&equals;"))
+			out(strings.ReplaceAll(v, "=", "\\u003d"))
+		}
+		for _, w := range [][2]string{{"\"", "\""}, {"'", "'"}, {"<", ">"}, {"(", ")"}, {"[", "]"}, {"base32:", ""}, {"secret=", ""}, {"", "&digits=6"}, {"otpauth://totp/x?secret=", ""}, {"", ";"}, {"", ","}, {"0x", ""}} {
+			out(w[0] + bare + w[1])
+			out(w[0] + padded + w[1])
+		}
+		out(fmt.Sprintf("%x", key))
+		out(fmt.Sprintf("%X", key))
+		out(base64.StdEncoding.EncodeToString(key))
+		out(base64.RawURLEncoding.EncodeToString(key))
+		// groups of four separated by blanks or dashes, as authenticator apps display them
+		var grp []string
+		for i := 0; i < len(bare); i += 4 {
+			grp = append(grp, bare[i:min(i+4, len(bare))])
+		}
+		if len(grp) > 1 {
+			out(strings.Join(grp, " "))
+			out(strings.Join(grp, "-"))
+		}
+	}
+}
+
 func c07History(c *Ctx, cases []spellCase) {
 	rng := c.RNG.Fork(77)
 	var valid, invalid []spellCase
@@ -307,6 +365,9 @@ func init() {
 				})
 			}
 			insertedOutsiders(rng, []int{2, 5, 10, 1, 3, 4, 20}[:c.N(3, 7)], func(text, class string) {
+				cases = append(cases, spellCase{Text: text, Class: class})
+			})
+			otherEncodings(rng, []int{1, 2, 3, 4, 5, 10, 16, 20, 32, 33}, func(text, class string) {
 				cases = append(cases, spellCase{Text: text, Class: class})
 			})
 			parallelJudge(c, cases, judgeSpell)
